@@ -168,6 +168,10 @@ def _helper_facts(chk, ctx) -> None:
     if pp is not None:
         facts('C20.driver', 'REParser._parse_players', pp, {
             # (a loop that adds to a set, or the set comprehension over the same two generators)
+            'in every kind of event line (antes, blinds, folds, calls, bets and raises, shows)': {
+                x.attr for n in ast.walk(pp.node) if isinstance(n, ast.Tuple) for x in n.elts if isinstance(x, ast.Attribute) and isinstance(x.value, ast.Name)
+                and x.value.id == 'self'} == {'ANTE_POSTING', 'BLIND_OR_STRADDLE_POSTING', 'FOLDING', 'CHECKING_OR_CALLING', 'COMPLETION_BETTING_OR_RAISING',
+                                              'HOLE_CARDS_SHOWING'},
             'every player named in an event line is collected': bool(m.calls(pp.node, "players.add(m['player'])")) or any(
                 isinstance(n, ast.SetComp) and m.eq(T.norm(n.elt), "m['player']", fn=pp.node) for n in ast.walk(pp.node)),
             'over all lines': bool(m.fors(pp.node, 's.splitlines()')) or any(
@@ -235,15 +239,7 @@ def _helper_facts(chk, ctx) -> None:
             'the cap is parsed from its group': bool(m.exprs(cs.node, "parse_value(m['cap'])")),
         }, 'Full Tilt: the cap is what the header states, and absent otherwise')
     # every parser entry point hands out every history it managed to build
-    for ci in [base, prog.cls('ACPCProtocolParser')] + [c for c in prog.subclasses('REParser')]:
-        call = ci.methods.get('__call__')
-        if call is None:
-            continue
-        ys = [n for n in ast.walk(call.node) if isinstance(n, ast.Yield) and n.value is not None]
-        ok = bool(ys) and all(isinstance(y.value, ast.Name) for y in ys)
-        rets = [n for n in ast.walk(call.node) if isinstance(n, ast.Return) and n.value is not None]
-        chk.ob('C20.errors', f'{ci.name}.__call__:yields', ok and bool(rets), call.loc,
-               'the importer yields each reconstructed history and returns the number of hands it saw', got=f'{len(ys)} yield(s), {len(rets)} return(s)')
+    entry_points(chk, ctx, 'C20.errors', [base, prog.cls('ACPCProtocolParser')] + [c for c in prog.subclasses('REParser')])
     ipc = ipk.methods.get('__call__')
     if ipc is not None:
         facts('C20.driver', 'IPokerNetworkParser.__call__', ipc, {
@@ -279,6 +275,12 @@ def _helper_facts(chk, ctx) -> None:
             'blinds follow the player order': laid_out(r_blinds) == 1,
             'stacks follow the player order': laid_out(r_stacks) == 1,
             'actions are parsed against the ordered players': bool(m.exprs(rp.node, 'self._parse_actions(s, parse_value, players)', nested=False)),
+            # late posts are marked (negated) in the parsed table BEFORE the per-seat list of blinds is read off it
+            'late posts are marked before the blinds are laid out': any(
+                isinstance(lp, ast.For) and any(isinstance(x, ast.UnaryOp) and isinstance(x.op, ast.USub) for x in ast.walk(lp))
+                and all(lp.lineno < a.lineno for a in rp.node.body if isinstance(a, ast.Assign) and any(
+                    isinstance(x, ast.Attribute) and x.attr == '__getitem__' and isinstance(x.value, ast.Name) and x.value.id == r_blinds for x in ast.walk(a.value)))
+                for lp in rp.node.body) if r_blinds else False,
             'what is returned is built from the replayed hand (with seats and names)': any(
                 isinstance(n, ast.Return) and n.value is not None and 'from_game_state' in ast.unparse(n.value) and 'seats=seats' in ast.unparse(n.value)
                 and 'players=players' in ast.unparse(n.value) for n in rp.node.body)
@@ -668,3 +670,26 @@ def _order(chk, ctx, base) -> None:
     chk.ob('C20.order', 'REParser._parse:seat_order', srt, fi.loc, 'players are first put in seat order')
     mb = Bl is not None and kw.get('min_bet') is not None and T.norm(kw['min_bet']) == T.spec(f'max({Bl}[:2])')
     chk.ob('C20.order', 'REParser._parse:min_bet', mb, fi.loc, 'the minimum bet is the big blind')
+
+
+def entry_points(chk, ctx, rule, classes) -> None:
+    """the ``__call__`` of a parser: one hand (one piece of text, one matching line) at a time - a hand that cannot be read is reported
+    (error or warning, as asked) and the next one is still read: the handler sits inside the loop over the hands, around one hand"""
+    for ci in classes:
+        call = ci.methods.get('__call__')
+        if call is None:
+            continue
+        ys = [n for n in ast.walk(call.node) if isinstance(n, ast.Yield) and n.value is not None]
+        ok = bool(ys) and all(isinstance(y.value, ast.Name) for y in ys)
+        rets = [n for n in ast.walk(call.node) if isinstance(n, ast.Return) and n.value is not None]
+        chk.ob(rule, f'{ci.name}.__call__:yields', ok and bool(rets), call.loc,
+               'the importer yields each reconstructed history and returns the number of hands it saw', got=f'{len(ys)} yield(s), {len(rets)} return(s)')
+        trys = [n for n in ast.walk(call.node) if isinstance(n, ast.Try)
+                and any(h.type is not None and 'ValueError' in ast.unparse(h.type) for h in n.handlers)]
+        if not trys:
+            continue        # (an importer that delegates to the generic one)
+        per_hand = all(any(any(t is x for x in lp.body) for lp in ast.walk(call.node) if isinstance(lp, (ast.For, ast.While))) for t in trys) \
+            and not any(isinstance(x, (ast.For, ast.While)) for t in trys for st in t.body for x in ast.walk(st))
+        chk.ob(rule, f'{ci.name}.__call__:per_hand', per_hand, ctx.loc(call, trys[0]),
+               'a hand that cannot be read is reported and skipped on its own: the handler is a statement of the loop over the hands and '
+               'covers one hand, so the hands after it are still read')
